@@ -22,6 +22,10 @@ RULE = ("seeds x committed scripts (constants, comparisons, erroring, RETURN, ow
 MARK = bytes([2, 1, 9, 2, 0x4c, 0x37, 1])      # cache[b'L7'] = [01]
 
 
+def push_(b):
+    return bytes([3, len(b)]) + b
+
+
 def committed_scripts(T, rng, sf):
     """(script bytes, witness prefix it needs)"""
     r = rng.random()
@@ -34,6 +38,9 @@ def committed_scripts(T, rng, sf):
     elif r < .76:     # a block construct followed by instructions that decide the verdict
         body = T.Script.from_src(rng.choice(['true true if { pop0 } false verify', 'true if { true } pop0 false', 'try { true } except { } pop0 push d1 push d2 equal',
                                              'true true if { pop0 } pop0 true', 'push d1 loop { pop0 false } pop0 true'])).bytes
+    elif r < .79:      # a committed script of exactly 32 bytes (the length of a hash / a key)
+        body = push_(V.rbytes(rng, 21)) + bytes([6, 1])
+        assert len(MARK + body) == 32
     elif r < .82: body = T.Script.from_src('def 1 { true } call d1').bytes
     elif r < .86: body = T.Script.from_src('call d0').bytes          # relies on a function the witness defines
     else:
@@ -127,6 +134,8 @@ def _run(ctx: Ctx) -> Result:
         wf = rng.choice([f for f in flagsets if int(f, 16) & ~int(lf, 16) == 0])
         bad_flags = [f for f in flagsets if int(f, 16) & ~int(lf, 16)]
         code, prefix = committed_scripts(T, rng, sf)
+        if it % 5 == 2:      # a committed script of exactly 32 bytes (the length of a hash / a key)
+            code, prefix = MARK + push_(V.rbytes(rng, 21)) + bytes([6, 1]), b''
         script = T.Script.from_bytes(code)
         inp = {'seed': seed.hex(), 'script': code.hex(), 'lock_flags': lf, 'witness_flags': wf, 'sigfields': {k: v.hex() for k, v in sf.items()}}
         res.note_case((seed, code, lf, wf, tuple(sorted(sf))))
@@ -223,6 +232,19 @@ def _run(ctx: Ctx) -> Result:
         scriptpath('one bit of the root in the lock flipped', code, pk, lk2)
         okk, o, _ = auth([wk.bytes, lk2], sf)
         if okk: B.viol('key path: honest witness against a lock whose root has one bit flipped', case([wk.bytes, lk2]), False, o[:80])
+        # ---- history: a Script object whose bytes are replaced in place between two builds - the second lock commits to the new bytes
+        if len(code) < 200:
+            S_ = T.Script.from_bytes(MARK + T.Script.from_src('true').bytes)
+            try:
+                l1_ = T.make_taproot_lock(pk, S_, None, lf)
+                S_.bytes = code; S_.src = script.src
+                l2_ = T.make_taproot_lock(pk, S_, None, lf)
+                res.note_case((seed, code, 'script-object-reused'))
+                if l2_.bytes[2:34] != ed.taproot_root(pk, code):
+                    B.viol('make_taproot_lock on a Script object whose bytes were replaced after an earlier build: the root does not commit to the current bytes',
+                           {**inp, 'first_script': S_.bytes.hex()}, ed.taproot_root(pk, code).hex(), l2_.bytes[2:34].hex())
+            except BaseException as e:
+                B.viol('make_taproot_lock raised on a reused Script object', inp, 'lock', type(e).__name__)
         # ---- history: taproot instructions the witness itself runs before the lock must not help a forged pair
         # (point subtraction: K = root - clamp(sha256(A || sha256(M))) * G would recompute to the root only with the tweak of (A, M))
         aseed = V.rbytes(rng, 32); A = bytes(SigningKey(aseed).verify_key)
